@@ -126,7 +126,7 @@ def o_locks(prog, lines):
                 readers.get(o, set()).discard(tid)
             elif name == "unwrite" and res == "ok":
                 writer.pop(o, None)
-            elif name == "wait" and res.startswith("v:"):
+            elif name in ("wait", "wait_while") and res.startswith("v:"):
                 # condvar wait released and re-acquired the mutex: on return the caller holds it again
                 m = args[1] if len(args) > 1 else None
                 if m and m in holder and holder[m] != tid and not may_be_waiting(holder[m], m):
@@ -327,7 +327,7 @@ def o_waiters(prog, lines):
                 notif.setdefault(o, [0, 0])[0] += 1
             elif name == "notify_all":
                 notif.setdefault(o, [0, 0])[1] += 1
-            elif name == "wait" and res.startswith("v:"):
+            elif name in ("wait", "wait_while") and res.startswith("v:"):
                 # (`wait_while` may return without waiting at all and is not counted)
                 waits[o] = waits.get(o, 0) + 1
                 n1, na = notif.get(o, [0, 0])
